@@ -1,4 +1,6 @@
 import RsslVerif.Lemmas.LexerStream
+import RsslVerif.Lemmas.LexerInt
+import RsslVerif.Lemmas.LexerFloat
 /-!
 # C10 — lexing is lossless and numeric literals are exact
 
@@ -7,7 +9,7 @@ source by `Gen.LexTables` and the correspondence run) and the exact rounding ref
 All quantifiers are unbounded: every byte string, every flag combination.
 -/
 namespace RsslVerif.Thm.C10
-open RsslVerif.Model.Lexer RsslVerif.Spec.Lexer RsslVerif.Gen.LexTables
+open RsslVerif.Model.Lexer RsslVerif.Spec.Lexer RsslVerif.Gen.LexTables RsslVerif.Spec
 
 /-! ## Part 1 — the token spans tile the file -/
 
@@ -132,5 +134,137 @@ theorem debug_build_panics_on_unterminated_comment :
 /-- non-vacuity of `spans_tile`: `a<b // c⏎` followed by a line splice lexes to seven tokens + synthetic endline -/
 example : (readToEnd [97, 60, 98, 32, 47, 47, 99, 10, 92, 10]).toOption.map (·.map fun t => (t.start, t.stop))
     = some [(0, 1), (1, 2), (2, 3), (3, 4), (4, 7), (7, 8), (8, 10), (10, 10)] := by decide
+
+/-! ## Part 2 — integer literals -/
+
+/-- the three digit readers of the lexer with their radix -/
+inductive IsRadix : (UInt8 → Option Nat) → Nat → Prop
+  | dec : IsRadix decDigit? 10
+  | hex : IsRadix hexDigit? 16
+  | oct : IsRadix octDigit? 8
+
+theorem IsRadix.facts {f : UInt8 → Option Nat} {base : Nat} (h : IsRadix f base) :
+    1 ≤ base ∧ ∀ b d, f b = some d → d < 2 ^ 64 := by
+  cases h
+  · exact ⟨by omega, fun b d h => by have := decDigit_lt b d h; omega⟩
+  · exact ⟨by omega, fun b d h => by have := hexDigit_lt b d h; omega⟩
+  · exact ⟨by omega, fun b d h => by have := octDigit_lt b d h; omega⟩
+
+/-- **int_value_exact** (`literal_decimal_int` / `literal_hex_int` / `literal_octal_int`): an accepted literal
+consumed the maximal run of digits, that run's positional value `v` fits in 64 bits and is exactly what the
+token is built from (`mkIntToken v suffix`). -/
+theorem int_value_exact {f : UInt8 → Option Nat} {base : Nat} (hr : IsRadix f base) {inp rest : Bytes}
+    {tok : Token} (h : literalIntWith f base inp = .ok (rest, tok)) :
+    ∃ k, tok = mkIntToken (Dec2Bin.ofDigits base (digitRun f inp)) k ∧
+      Dec2Bin.ofDigits base (digitRun f inp) < 2 ^ 64 ∧
+      rest = (opt (intType (afterRun f inp)) (afterRun f inp)).1 := by
+  obtain ⟨hb, hf⟩ := hr.facts
+  cases inp with
+  | nil => simp [literalIntWith, digitsWith, digitWith, endOfStream] at h
+  | cons b r =>
+    cases hd : f b with
+    | none => simp [literalIntWith, digitsWith, digitWith, hd, wrongChars] at h
+    | some d =>
+      unfold literalIntWith at h
+      rw [digitsWith_closed f base hb hf b r d hd] at h
+      by_cases hlt : Dec2Bin.ofDigits base (digitRun f (b :: r)) < 2 ^ 64
+      · simp only [hlt, if_true] at h
+        simp at h
+        exact ⟨_, h.2.symm, hlt, h.1.symm⟩
+      · simp only [hlt, if_false] at h
+        cases h
+
+/-- **int_value_exact_partial**: the accepted token *denotes* the written value — for every suffix except
+`l`/`L` on a value ≥ 2^63 (see `int_value_exact_fails_for_suffix_l`; that case is the reason this is
+`_partial`). -/
+theorem int_value_exact_partial {f : UInt8 → Option Nat} {base : Nat} (hr : IsRadix f base) {inp rest : Bytes}
+    {tok : Token} (h : literalIntWith f base inp = .ok (rest, tok))
+    (hs : (opt (intType (afterRun f inp)) (afterRun f inp)).2 ≠ some .Signed64 ∨
+          Dec2Bin.ofDigits base (digitRun f inp) < 2 ^ 63) :
+    tok.intValue? = some (Dec2Bin.ofDigits base (digitRun f inp) : Int) := by
+  obtain ⟨hb, hf⟩ := hr.facts
+  cases inp with
+  | nil => simp [literalIntWith, digitsWith, digitWith, endOfStream] at h
+  | cons b r =>
+    cases hd : f b with
+    | none => simp [literalIntWith, digitsWith, digitWith, hd, wrongChars] at h
+    | some d =>
+      unfold literalIntWith at h
+      rw [digitsWith_closed f base hb hf b r d hd] at h
+      by_cases hlt : Dec2Bin.ofDigits base (digitRun f (b :: r)) < 2 ^ 64
+      · simp only [hlt, if_true] at h
+        simp at h
+        rw [← h.2]
+        exact mkIntToken_value _ _ hs
+      · simp only [hlt, if_false] at h
+        cases h
+
+/-- **int_overflow_rejected**: a digit run whose value does not fit in 64 bits is never accepted: the literal
+is rejected with `IntegerLiteralTooLarge` positioned at its first digit. -/
+theorem int_overflow_rejected {f : UInt8 → Option Nat} {base : Nat} (hr : IsRadix f base) (b : UInt8) (r : Bytes)
+    (d : Nat) (hd : f b = some d) (hbig : 2 ^ 64 ≤ Dec2Bin.ofDigits base (digitRun f (b :: r))) :
+    literalIntWith f base (b :: r) = .error (.lex (.rest (b :: r)) .IntegerLiteralTooLarge) := by
+  obtain ⟨hb, hf⟩ := hr.facts
+  unfold literalIntWith
+  rw [digitsWith_closed f base hb hf b r d hd]
+  have : ¬ Dec2Bin.ofDigits base (digitRun f (b :: r)) < 2 ^ 64 := by omega
+  simp [this]
+
+/-- `literal_int` picks the radix from the prefix and then behaves as above -/
+theorem literalInt_radix (inp : Bytes) :
+    (∃ body, inp = [48, 120] ++ body ∧ literalInt inp = literalIntWith hexDigit? 16 body) ∨
+    (∃ body, inp = 48 :: body ∧ (digitWith octDigit? body).isOk = true ∧
+        literalInt inp = literalIntWith octDigit? 8 body) ∨
+    literalInt inp = literalIntWith decDigit? 10 inp := by
+  unfold literalInt
+  split
+  · rename_i r h; exact .inl ⟨r, stripPrefix?_eq h, rfl⟩
+  · split
+    · rename_i r h
+      split
+      · rename_i x hx; exact .inr (.inl ⟨r, stripPrefix?_eq h, by simp [hx, Except.isOk, Except.toBool], rfl⟩)
+      · exact .inr (.inr rfl)
+    · exact .inr (.inr rfl)
+
+/-- **The full statement "an accepted integer literal denotes exactly its written value" is false on the
+pinned code**: `9223372036854775808l` (2^63, fits in 64 bits) is accepted and denotes `-2^63`
+(`value as i64` in `literal_decimal_int`). Replayed on the real lexer by `corpus/C10.txt`
+(known finding). -/
+theorem int_value_exact_fails_for_suffix_l :
+    (match literalInt [57, 50, 50, 51, 51, 55, 50, 48, 51, 54, 56, 53, 52, 55, 55, 53, 56, 48, 56, 108] with
+     | .ok (rest, tok) => (rest.length, tok.intValue?)
+     | .error _ => (1, none)) = (0, some (-9223372036854775808)) := by decide
+
+/-- non-vacuity: `0x7fFFu;` is accepted with value 32767, `18446744073709551616` is rejected -/
+example : (match literalInt [48, 120, 55, 102, 70, 70, 117, 59] with
+     | .ok (rest, tok) => (rest, tok.intValue?) | .error _ => ([], none)) = ([59], some 32767) := by decide
+example : (match literalInt [49, 56, 52, 52, 54, 55, 52, 52, 48, 55, 51, 55, 48, 57, 53, 53, 49, 54, 49, 54] with
+     | .error (.lex _ r) => some r | _ => none) = some .IntegerLiteralTooLarge := by decide
+
+/-! ## Part 3 — floating literals -/
+
+/-- **lex_float_nearest**: an accepted float literal is the text `<left>[.<right>][e<exp>][#INF][suffix]`, and its
+token carries `narrowOnce suffix (nearest64 (left ++ right) (exp - |right|))`: the double nearest (see
+`Spec/Dec2Bin.lean` and `nearest_*` below) to the decimal it spells, narrowed once to single precision for the
+`f`/`h` suffixes — or `+∞` for the `#INF` spelling, which is accepted only on a non-zero literal without exponent. -/
+theorem lex_float_nearest {inp rest : Bytes} {tok : Token} (h : literalFloat inp = .ok (rest, tok)) :
+    ∃ (hasFraction : Bool) (left right : List Nat) (i2 : Bytes) (ty : Option FloatType),
+      inp = left.map digitByte ++ ((if hasFraction then 46 :: right.map digitByte else []) ++ i2) ∧
+      (hasFraction = false → right = []) ∧
+      (tok.floatBits? = some (narrowOnce ty
+          (Dec2Bin.nearest64 (left ++ right) ((opt (floatExponent i2) i2).2.getD 0 - right.length))) ∨
+       ((opt (floatExponent i2) i2).2 = none ∧
+        Dec2Bin.nearest64 (left ++ right) (0 - right.length) ≠ 0 ∧
+        tok.floatBits? = some (narrowOnce ty Dec2Bin.binary64.infBits))) := by
+  obtain ⟨hf, l, r, i2, ty, hm, hv⟩ := literalFloat_value h
+  have ht := floatMantissa_text hm
+  exact ⟨hf, l, r, i2, ty, ht.1, ht.2, hv⟩
+
+/-- non-vacuity / regression witnesses for the defect fixed in c2067b9: `0.0031308` and `0.055L` are the
+nearest doubles (the old digit-by-digit accumulation gave `…bd`+1 and `…29`+1) -/
+example : (match literalFloat [48, 46, 48, 48, 51, 49, 51, 48, 56] with
+    | .ok (_, tok) => tok.floatBits? | .error _ => none) = some 0x3f69a5c37387b719 := by decide
+example : (match literalFloat [48, 46, 48, 53, 53, 76] with
+    | .ok (_, tok) => tok.floatBits? | .error _ => none) = some 0x3fac28f5c28f5c29 := by decide
 
 end RsslVerif.Thm.C10
